@@ -62,3 +62,14 @@ LEVEL_TEXT = ('Theorems C16_table/C16_octet/C16_bytes/C16_concat/C16_u16 (Proper
               'against the current source; the loops are tied by a correspondence run against the bit-serial specification.')
 LEVEL_NOTE = ('Trusted: Coq kernel + vm_compute; crc2coq.py/clang AST; loops modelled as folds (correspondence-tested, not proved about the C); '
               'little-endian host for the u16 variant; extraction + harness for the correspondence run. No axioms.')
+
+def _buf_cases(rng, big):
+    for n in list(range(0, 20)) + [63, 64, 65, 255, 256, 1000]:
+        for _ in range(4 if big else 2):
+            yield 'crc.buf %s' % hexs([rng.choice([0, 0xff, rng.randrange(256)]) for _ in range(n)])
+
+_gen_core = gen
+def gen(rng, tier):
+    yield from _gen_core(rng, tier)
+    yield from _buf_cases(rng, tier == 'thorough')
+
